@@ -9,7 +9,7 @@ class C17(Prop):
     NEED_BINS = True
     PER_CASE_TIMEOUT = 90.0
     THEOREMS = ["C17_stats", "C17_sum_exact", "C17_minmax", "C17_rows_in_order", "C17_chunked_eq_serial", "C17_chunking_irrelevant",
-                "C17_name", "C17_values_over_bed", "C17_values_over_bed_last", "C17_stats_per_base"]
+                "C17_name", "C17_values_over_bed", "C17_values_over_bed_last", "C17_stats_per_base", "C17_values_rows_in_order"]
     RULE = ("a bigWig from the C01 generator (1-6 chromosomes, layouts dense/sparse/adjacent/zero-length/edge/long gap/long item, all "
             "writer options) with values that are small multiples of 1/8 (exact stream, 80%) or arbitrary finite f32 patterns (20%: "
             "sum/means compared with the model only, not with the oracle); a BED file of 0..300 regions whose ends are drawn from the "
@@ -209,13 +209,13 @@ class C17(Prop):
 
     def gen(self, rng, tier):
         quick = tier == "quick"
-        for _ in range(170 if quick else 4000):
+        for _ in range(170 if quick else 2500):
             yield self.valid_case(rng, tier, 0)
-        for _ in range(70 if quick else 900):
+        for _ in range(70 if quick else 500):
             yield self.valid_case(rng, tier, 1)
-        for _ in range(50 if quick else 900):
+        for _ in range(50 if quick else 500):
             yield self.valid_case(rng, tier, 2)
-        for k, nq, nt in ((3, 20, 200), (5, 20, 300), (4, 15, 200), (6, 25, 300), (7, 30, 500)):
+        for k, nq, nt in ((3, 20, 100), (5, 20, 150), (4, 15, 100), (6, 25, 150), (7, 30, 250)):
             for _ in range(nq if quick else nt):
                 yield self.invalid_case(rng, tier, k)
 
